@@ -4,6 +4,7 @@ package ref
 type FrameBlock struct {
 	Size int  `json:"size"`
 	Raw  bool `json:"raw"`
+	Dec  int  `json:"dec"` // decoded length (-1 when the block was not decoded)
 }
 
 // FrameResult mirrors LZ4Frame.tla: R(status, content, consumed, hdr, blocks), plus the
@@ -151,9 +152,6 @@ func frameBlocks(s []byte, i int, r FrameResult, strict bool) FrameResult {
 				}
 				end = i + 8
 			}
-			if strict && r.HasSize && r.Csize != uint64(len(r.Content)) {
-				return done("size_mismatch", end)
-			}
 			return done("ok", end)
 		}
 		size, raw := low31(s, i), topBit(s, i)
@@ -172,12 +170,13 @@ func frameBlocks(s []byte, i int, r FrameResult, strict bool) FrameResult {
 		if bcs {
 			next += 4
 		}
-		r.Blocks = append(r.Blocks, FrameBlock{size, raw})
+		r.Blocks = append(r.Blocks, FrameBlock{size, raw, -1})
 		if bcs && word(s, d0+size) != XXH32(data) {
 			return done("bad_block_cs", next)
 		}
 		if raw {
 			r.Content = append(r.Content, data...)
+			r.Blocks[len(r.Blocks)-1].Dec = size
 		} else {
 			var dict []byte
 			if !indep {
@@ -188,6 +187,7 @@ func frameBlocks(s []byte, i int, r FrameResult, strict bool) FrameResult {
 				return done("bad_block", next)
 			}
 			r.Content = append(r.Content, dec.Out...)
+			r.Blocks[len(r.Blocks)-1].Dec = len(dec.Out)
 		}
 		i = next
 	}
@@ -215,10 +215,11 @@ func legacyBlocks(s []byte, i int) FrameResult {
 			return done("truncated", len(s))
 		}
 		dec, _ := DecodeBlock(s[i+4:i+4+size], nil, legacyBlock, true)
-		r.Blocks = append(r.Blocks, FrameBlock{size, false})
+		r.Blocks = append(r.Blocks, FrameBlock{size, false, -1})
 		if dec.Kind != "ok" {
 			return done("bad_block", i+4+size)
 		}
+		r.Blocks[len(r.Blocks)-1].Dec = len(dec.Out)
 		r.Content = append(r.Content, dec.Out...)
 		i += 4 + size
 	}
